@@ -415,6 +415,12 @@ def r07_14(ctx):
 
 
 def run(ctx):
+    # a worker leaves when it reads the sentinel / a dead pipe (found by the mutation sweep)
+    from .sweep import r07_15 as _r07_15
+    _r07_15(ctx)
+    from .sweep import r07_16 as _r07_16, r07_17 as _r07_17
+    _r07_16(ctx)
+    _r07_17(ctx)
     r07_14(ctx)
     r07_13(ctx)
     r07_12(ctx)
